@@ -239,6 +239,7 @@ pub fn check_png(c: &PngCase) -> CheckResult {
     }
     o.nontrivial = distinct_swap_visible >= 2 && c.w != c.h;
     o.class_if(c.words.iter().any(|p| p >> 24 == 0 && p & 0xffffff != 0), "transparent-with-colour");
+    o.class_if(n > 65536 && c.words.iter().any(|p| p >> 24 == 0 && p & 0xffffff != 0), "more-than-65536-pixels-with-transparent-colour");
     o.class_if(matches!(state, 1 | 2 | 4), "written-while-a-layer-is-open");
     o.class_if(matches!(state, 3 | 4), "written-under-a-clip");
     o.class_if(c.words.iter().any(|p| (p >> 24) > 0 && (p >> 24) < 255), "translucent");
@@ -263,9 +264,9 @@ fn png_strategy() -> BoxedStrategy<PngCase> {
 /// surfaces of more than 16384 pixels that are mostly empty: a few rows of content, the rest exactly zero (what
 /// a drawing on a cleared surface looks like; block-wise or cached conversions show their seams here)
 fn png_big_strategy() -> BoxedStrategy<PngCase> {
-    (130i32..=190, 130i32..=190)
+    prop_oneof![2 => (130i32..=190, 130i32..=190), 1 => (257i32..=300, 257i32..=290)]
         .prop_flat_map(|(w, h)| {
-            let px = prop_oneof![4 => px_premul(), 1 => Just(0u32)];
+            let px = prop_oneof![4 => px_premul(), 1 => Just(0u32), 1 => any::<u32>().prop_map(|v| v & 0x00ff_ffff)];
             (Just(w), Just(h), prop::collection::vec((0..h, prop::collection::vec(px, w as usize..=w as usize)), 1..=6))
         })
         .prop_map(|(w, h, rows)| {
@@ -281,10 +282,10 @@ fn png_big_strategy() -> BoxedStrategy<PngCase> {
 pub fn property(_ctx: &Ctx) -> Property {
     Property {
         id: "C19",
-        rule: "part views: sizes 0..9 x 0..9 (rarely 257..300 long or tall, also for part png) with arbitrary pixel words, arbitrary bytes written through get_data_u8_mut, arbitrary a,r,g,b for to_u32; oracle = word/byte layout model (A<<24|R<<16|G<<8|B; bytes B,G,R,A), cross-view visibility and from_vec/from_backing/into_vec/into_inner round trips (owned and borrowed backings; from_vec also with shorter vectors, with and without spare capacity, and longer ones: pixels that fit are kept, missing ones are zero). part png-large: 130..190 px square surfaces (more than 16384 pixels) that are zero except for a few rows, same oracle. part png: premultiplied words (alpha-0 pixels with arbitrary colour bytes) written by write_png (in two thirds of the cases while a layer group is open, empty or drawn into, or a clip and a transform are in force: the image is the surface's pixel words regardless) and decoded with the png crate; oracle = un-premultiply model floor(c*255/a), alpha unchanged, row-major RGBA8. Non-trivial: >=2 distinct pixels, w != h and pairwise different channel bytes (so a channel swap or transposition is visible); distinct by hash of the case.",
+        rule: "part views: sizes 0..9 x 0..9 (rarely 257..300 long or tall, also for part png) with arbitrary pixel words, arbitrary bytes written through get_data_u8_mut, arbitrary a,r,g,b for to_u32; oracle = word/byte layout model (A<<24|R<<16|G<<8|B; bytes B,G,R,A), cross-view visibility and from_vec/from_backing/into_vec/into_inner round trips (owned and borrowed backings; from_vec also with shorter vectors, with and without spare capacity, and longer ones: pixels that fit are kept, missing ones are zero). part png-large: 130..190 px square surfaces (more than 16384 pixels) and 257..300 x 257..290 ones (more than 65536) that are zero except for a few rows (premultiplied words and alpha-0 words with colour bytes), same oracle. part png: premultiplied words (alpha-0 pixels with arbitrary colour bytes) written by write_png (in two thirds of the cases while a layer group is open, empty or drawn into, or a clip and a transform are in force: the image is the surface's pixel words regardless) and decoded with the png crate; oracle = un-premultiply model floor(c*255/a), alpha unchanged, row-major RGBA8. Non-trivial: >=2 distinct pixels, w != h and pairwise different channel bytes (so a channel swap or transposition is visible); distinct by hash of the case.",
         assumptions: vec!["little-endian target", "the png crate's decoder is trusted"],
         parts: vec![part_outside_c07("views", 60_000, 600_000, view_strategy, check_views), part("png", 20_000, 200_000, png_strategy, check_png), part("png-large", 150, 3_000, png_big_strategy, check_png)],
-        min_class_fraction: vec![("views", "from_vec:short-nonzero", 0.5), ("png", "translucent", 0.5), ("png", "transparent-with-colour", 0.1)],
+        min_class_fraction: vec![("views", "from_vec:short-nonzero", 0.5), ("png", "translucent", 0.5), ("png", "transparent-with-colour", 0.1), ("png-large", "more-than-65536-pixels-with-transparent-colour", 0.2)],
         panic_is_violation: false,
     }
 }
